@@ -253,6 +253,45 @@ Section E2E.
     - unfold within_limits in Hl. now apply Forall_map.
   Qed.
 
+  (** A send the receiver refuses closes the connection: the complete packets carried by the
+      sends before it are delivered, a packet cut by the refusal yields nothing, and nothing sent
+      afterwards arrives (what lies beyond [within_limits]). *)
+  Lemma accept_units_cut : forall us1 u us2,
+    Forall (fun x => accepts x = true) us1 -> accepts u = false ->
+    accept_units (us1 ++ u :: us2) = us1.
+  Proof.
+    induction 1 as [|x us1 Hx _ IH]; intros Hu; simpl.
+    - now rewrite Hu.
+    - now rewrite Hx, IH.
+  Qed.
+
+  Lemma packets_frames_ok : forall evs, Forall frame_ok (flat_map enc evs).
+  Proof.
+    induction evs as [|e evs IH]; simpl; [constructor|].
+    apply Forall_app. split; [apply enc_frames_ok | exact IH].
+  Qed.
+
+  Theorem rejected_send_cuts : forall evs1 p batches1 bad batches2,
+    concat batches1 = flat_map enc evs1 ++ p ->
+    (p = [] \/ exists e s, enc e = p ++ s /\ s <> []) ->
+    Forall (fun b => accepts (pack b) = true) batches1 ->
+    accepts (pack bad) = false ->
+    parsed (batches1 ++ bad :: batches2) = evs1.
+  Proof.
+    intros evs1 p batches1 bad batches2 Hc Hp Hok Hbad. unfold parsed.
+    rewrite link_fifo, map_app. simpl. rewrite accept_units_cut.
+    - rewrite recv_units_flat, unpack_pack_all, Hc.
+      + destruct Hp as [-> | [e [s [He Hs]]]].
+        * rewrite app_nil_r, feed_packets. reflexivity.
+        * eapply no_truncated_delivery; eassumption.
+      + apply Forall_concat_inv. rewrite Hc. apply Forall_app. split.
+        * apply packets_frames_ok.
+        * destruct Hp as [-> | [e [s [He _]]]]; [constructor|].
+          pose proof (enc_frames_ok e) as H. rewrite He in H. now apply Forall_app in H as [H _].
+    - now apply Forall_map.
+    - exact Hbad.
+  Qed.
+
   (** ** Interleavings *)
   Lemma all_nil_nth : forall {A} (ls : list (list A)) i,
     Forall (fun l => l = []) ls -> nth i ls [] = [].
